@@ -79,7 +79,8 @@ def make_pool():
         e['Table']({'a': e['Bag'](['x'])}), e['Table']({1: [e['Bag'](['s'])]}), e['Table']({1: [e['Bag']([1])]}),
         e['PairL']([e['Bag'](['a'])]), e['PairL']([e['Bag']([1])]), e['Scores']({1: 'a'}), e['Scores']({'a': 1}),
         e['Scores']({1: 1}), e['Table']({1: 'a'}), e['IntsT']([1]), e['IntsT'](['a']), e['TaggedInts'](['a']), e['TaggedInts']([2]),
-        e['TableT']({'a': 1}), e['TableT']({'a': 'b'}),
+        e['TableT']({'a': 1}), e['TableT']({'a': 'b'}), e['Person'](), e['Badge'](e['Person']()), e['BadgeList']([e['Person']()]),
+        e['BadgeList']([1]),
         int, str, bool, float, A, B, C, D, Col, type, object, list, dict, e['IntSub'],
         len, fn, gen(), iter([1]), iter(()), object(), lambda: 0,
     ]
@@ -203,6 +204,7 @@ def cls_values():
             'SupportsAbs': [1, -1.5, 1j], 'MappingView': [{1: 2}.keys(), {}.values(), {1: 2}.items()],
             'RePatternStr': [e['_re'].compile('a'), e['_re'].compile(b'b')], 'ReMatchStr': [e['_re'].match('a', 'a')],
             'PathLikeStr': [e['_pathlib'].PurePosixPath('a')], 'CtxMgrInt': [e['WithCtx']()],
+            'Person': [e['Person']()],
             'RealBox': [e['RealBox'](e['RealBox'](1)), e['RealBox'](e['RealBox'](2)), e['RealBox'](1),
                         e['RealBox'](e['RealBox'](e['RealBox'](1))), e['RealBox'](e['RealBox'](1))],
         }
@@ -1020,11 +1022,17 @@ class TypeH(Node):
             return False
         if not self.class_names:
             return True
-        return issubclass(x, tuple(lookup(n) for n in self.class_names))
+        classes = [lookup(n) for n in self.class_names]
+        if cx.tower:          # the numeric tower rewrites float / complex inside type[...] as well
+            if complex in classes:
+                classes += [float, int]
+            if float in classes:
+                classes += [int]
+        return issubclass(x, tuple(classes))
 
     def gen_in(self, rng, cx=CX0, depth=0, hashable=False):
         e = env()
-        cands = [int, str, bool, float, e['A'], e['B'], e['C'], e['D'], e['Col'], e['IntSub'], type, object, list]
+        cands = [int, str, bool, float, complex, e['A'], e['B'], e['C'], e['D'], e['Col'], e['IntSub'], type, object, list]
         good = [c for c in cands if self.full(c, cx)]
         if not good:
             raise CantGen('type')
@@ -1161,6 +1169,13 @@ def named_nodes():
                        gen=lambda rng, cx, d: e['PairL']([bag(S).gen_in(rng, cx, d + 1) for _ in range(size_pick(rng, d))])),
         lambda: NamedH('Scores', 'generic:dict2-subclass-bounded-typevars', isinst='Scores', items=('map', I, S),
                        gen=lambda rng, cx, d: e['Scores']({i: 's%d' % i for i in range(size_pick(rng, d))})),
+        # generics over a TypeVar bounded by a runtime-checkable protocol with a data member
+        lambda: NamedH('Badge[Person]', 'generic:protocol-bound', isinst='Badge',
+                       gen=lambda rng, cx, d: e['Badge'](e['Person']())),
+        lambda: NamedH('BadgeList[Person]', 'generic:protocol-bound', isinst='BadgeList', items=('seq', Cls('Person')),
+                       gen=lambda rng, cx, d: e['BadgeList']([e['Person']() for _ in range(size_pick(rng, d))])),
+        lambda: NamedH('TN', 'typevar:bound-protocol', isinst='HasName', gen=lambda rng, cx, d: e['Person']()),
+        lambda: NamedH('HasName', 'protocol', isinst='HasName', gen=lambda rng, cx, d: e['Person']()),
         # several bases: constraining builtin generic + user-defined generic mixin, in both orders
         lambda: NamedH('IntsT', 'generic:multi-base', isinst='IntsT', items=('seq', I),
                        gen=lambda rng, cx, d: e['IntsT']([rng.randint(0, 9) for _ in range(size_pick(rng, d))])),
@@ -1278,7 +1293,7 @@ def gen_hint(rng, depth=3, hashable=False, allow_any=True, top=True):
         if r < .82:
             return LiteralH(rng.sample(_LITERAL_SRCS, rng.randint(1, 4)))
         if r < .87:
-            names = rng.sample(['A', 'B', 'D', 'int', 'str', 'Col'], rng.choice((0, 1, 1, 2)))
+            names = rng.sample(['A', 'B', 'D', 'int', 'str', 'Col', 'float', 'complex'], rng.choice((0, 1, 1, 2)))
             return TypeH(names, rng.random() < .3)
         nn = named_nodes()
         if hashable:
